@@ -9,10 +9,14 @@ package dastard
 // float64 evaluation of the defining formula (gamma_n * sum of |terms|).
 
 import (
+	"encoding/base64"
 	"fmt"
 	"math"
 	"math/big"
 	"testing"
+	"time"
+
+	"github.com/spf13/viper"
 
 	"gonum.org/v1/gonum/mat"
 	"pgregory.net/rapid"
@@ -33,11 +37,17 @@ type c13Case struct {
 	NBases int       `json:"nbases"`
 	Proj   []float64 `json:"proj,omitempty"`  // nbases x len(data), row major
 	Basis  []float64 `json:"basis,omitempty"` // len(data) x nbases, row major
+	// ViaRPC: the model reaches the channel as a client sends it - base64 text through SourceControl.ConfigureProjectorsBasis and the
+	// source's ConfigureProjectorsBases - instead of SetProjectorsBasis on the processor
+	ViaRPC bool `json:"via_rpc,omitempty"`
+	// Prior (with ViaRPC): the channel got an earlier model the same way: 1 projectors 2.5 times the final ones and the same basis,
+	// 2 everything negated, 3 another number of bases
+	Prior int `json:"prior,omitempty"`
 }
 
 func c13GenMatrix(t *rapid.T, n int, label string) []float64 {
 	out := make([]float64, n)
-	kind := rapid.IntRange(0, 3).Draw(t, label+"kind")
+	kind := rapid.IntRange(0, 4).Draw(t, label+"kind")
 	for i := range out {
 		var x float64
 		switch kind {
@@ -49,6 +59,8 @@ func c13GenMatrix(t *rapid.T, n int, label string) []float64 {
 			if rapid.Bool().Draw(t, label+"s") {
 				x = -x
 			}
+		case 4: // projectors for a basis in raw ADC units: tiny entries
+			x = rapid.Float64Range(-4e-7, 4e-7).Draw(t, label)
 		case 2: // sparse
 			if rapid.IntRange(0, 3).Draw(t, label+"z") == 0 {
 				x = rapid.Float64Range(-1000, 1000).Draw(t, label)
@@ -116,8 +128,20 @@ func c13Gen(t *rapid.T) c13Case {
 		if n > 300 {
 			c.NBases = rapid.IntRange(1, 2).Draw(t, "nbasesbig")
 		}
+		c.ViaRPC = rapid.IntRange(0, 2).Draw(t, "viarpc") == 0
+		if c.ViaRPC && n <= 12 && rapid.IntRange(0, 2).Draw(t, "square") == 0 {
+			c.NBases = n // a square model: legal, and the one shape in which rows and columns can be confused
+		}
 		c.Proj = c13GenMatrix(t, c.NBases*n, "p")
 		c.Basis = c13GenMatrix(t, n*c.NBases, "b")
+		if c.ViaRPC {
+			c.Prior = rapid.SampledFrom([]int{0, 0, 1, 1, 2, 3}).Draw(t, "prior")
+			if c.Prior == 1 && rapid.Bool().Draw(t, "tinyproj") {
+				for i := range c.Proj {
+					c.Proj[i] = rapid.Float64Range(-4e-7, 4e-7).Draw(t, "tp")
+				}
+			}
+		}
 	}
 	if n <= 200 {
 		nmore := rapid.IntRange(0, 3).Draw(t, "nmore")
@@ -144,6 +168,98 @@ func c13Gen(t *rapid.T) c13Case {
 		}
 	}
 	return c
+}
+
+// c13LoadViaRPC puts a real SourceControl in front of a source with one channel, sends the model(s) as a client does and returns
+// the channel's processor.
+func c13LoadViaRPC(c *c13Case, n int) (*DataStreamProcessor, *vVerdict) {
+	holder := newScripted(1, time.Millisecond, 48) // only its embedded AnySource is used
+	ds := &holder.AnySource
+	ds.name = "verif"
+	ds.sampleRate = 1e6
+	ds.samplePeriod = time.Microsecond
+	ds.subframeDivisions = 1
+	fail := func(sig, f string, a ...interface{}) (*DataStreamProcessor, *vVerdict) {
+		v := vFailf(sig, f, a...)
+		return nil, &v
+	}
+	if err := ds.PrepareChannels(); err != nil {
+		return fail("harness", "PrepareChannels: %v", err)
+	}
+	ds.rowColCodes = make([]RowColCode, 1)
+	viper.Reset()
+	if err := ds.PrepareRun(c.Npre, n); err != nil {
+		return fail("harness", "PrepareRun: %v", err)
+	}
+	ds.numberWrittenTicker.Stop()
+	ds.writingState.externalTriggerTicker.Stop()
+	ds.writingState.dataDropTicker.Stop()
+	sc := NewSourceControl()
+	sc.clientUpdates = clientMessageChan
+	sc.ActiveSource = holder
+	sc.isSourceActive = true
+	sc.status.Npresamp, sc.status.Nsamples = c.Npre, n
+	ds.sourceState = Active
+	send := func(nb int, proj, basis []float64, what string) *vVerdict {
+		P := mat.NewDense(nb, n, append([]float64(nil), proj...))
+		B := mat.NewDense(n, nb, append([]float64(nil), basis...))
+		pb, _ := P.MarshalBinary()
+		bb, _ := B.MarshalBinary()
+		done := make(chan struct{})
+		go func() { // the core loop's part: take the queued request and run it
+			defer close(done)
+			select {
+			case f := <-sc.queuedRequests:
+				f()
+			case <-time.After(5 * time.Second):
+			}
+		}()
+		var ok bool
+		err := sc.ConfigureProjectorsBasis(&ProjectorsBasisObject{ChannelIndex: 0, ProjectorsBase64: base64.StdEncoding.EncodeToString(pb),
+			BasisBase64: base64.StdEncoding.EncodeToString(bb), ModelDescription: what}, &ok)
+		<-done
+		if err != nil {
+			v := vFailf("projectors-rejected", "%s: compatible projectors %dx%d / basis %dx%d sent through the RPC method are rejected: %v", what, nb, n, n, nb, err)
+			return &v
+		}
+		return nil
+	}
+	switch c.Prior {
+	case 1, 2:
+		p1 := make([]float64, len(c.Proj))
+		b1 := append([]float64(nil), c.Basis...)
+		for i, x := range c.Proj {
+			if c.Prior == 1 {
+				p1[i] = 2.5 * x
+			} else {
+				p1[i] = -x
+			}
+		}
+		if c.Prior == 2 {
+			for i := range b1 {
+				b1[i] = -b1[i]
+			}
+		}
+		if bad := send(c.NBases, p1, b1, "earlier model"); bad != nil {
+			return nil, bad
+		}
+	case 3:
+		nb := c.NBases%3 + 1
+		if nb == c.NBases {
+			nb++
+		}
+		p1, b1 := make([]float64, nb*n), make([]float64, nb*n)
+		for i := range p1 {
+			p1[i], b1[i] = float64(i%7)-3, float64(i%5)-2
+		}
+		if bad := send(nb, p1, b1, "earlier model"); bad != nil {
+			return nil, bad
+		}
+	}
+	if bad := send(c.NBases, c.Proj, c.Basis, "final model"); bad != nil {
+		return nil, bad
+	}
+	return ds.processors[0], nil
 }
 
 const c13Prec = 300
@@ -179,7 +295,13 @@ func c13Run(c c13Case) (v vVerdict) {
 		return v
 	}
 	dsp := NewDataStreamProcessor(0, nil, c.Npre, n)
-	if c.NBases > 0 {
+	if c.NBases > 0 && c.ViaRPC {
+		d, bad := c13LoadViaRPC(&c, n)
+		if bad != nil {
+			return *bad
+		}
+		dsp = d
+	} else if c.NBases > 0 {
 		P := mat.NewDense(c.NBases, n, append([]float64(nil), c.Proj...))
 		B := mat.NewDense(n, c.NBases, append([]float64(nil), c.Basis...))
 		if err := dsp.SetProjectorsBasis(P, B, "verif"); err != nil {
@@ -373,6 +495,15 @@ func c13CheckRecord(c c13Case, rec *DataRecord, npreRec int, cData []uint16) (v 
 	v.NonTrivial = !constant && ((c.Signed && hasNeg) || c.NBases > 0)
 	if c.NBases > 0 {
 		v.Classes = append(v.Classes, "projectors")
+		if c.ViaRPC {
+			v.Classes = append(v.Classes, "model-sent-as-a-client-does")
+			if c.Prior > 0 {
+				v.Classes = append(v.Classes, "model-replaced")
+			}
+			if c.NBases == n {
+				v.Classes = append(v.Classes, "square-model")
+			}
+		}
 	}
 	if c.Signed && hasNeg {
 		v.Classes = append(v.Classes, "signed-negative")
